@@ -1,21 +1,10 @@
-"""Per-property configuration of ./check: Lean module, harness families, trusted base."""
-
-KERNEL = "Lean 4.33.0 kernel (lake build re-elaborates and kernel-checks; thorough tier also runs leanchecker)"
-AXIOMS = "axioms used by the theorems: subset of {propext, Classical.choice, Quot.sound}, audited per theorem on every run; no sorry/admit/native_decide/bv_decide/own axioms"
-TIE = "correspondence harness (/verif/harness, Rust) + compiled Lean driver (uec-driver): my serialisers, canonical forms and generators; a disagreement the generators do not produce is not seen"
-RUST = "rustc/std (Vec, iterators, derive), not modelled"
-RAND = "rand 0.9.0: the documented contract and law of each primitive the repository calls (answers are taken from a shadow generator by the same rand call)"
-HAND = "the Impl models are written by hand from the Rust source; nothing is verified on the Rust text itself"
-
-PROPS = {
-    "C04": {
-        "module": "Uec.Props.C04",
-        "model_modules": ["Uec.Model.Stack", "Uec.Model.StackSpec", "Uec.Lemmas.Stack"],
-        "families": ["stack"],
-        "trusted_base": [KERNEL, AXIOMS, TIE, RUST, HAND,
-                         "modelled: every public operation of push_vm/stack.rs::Stack (top/top2/top3, pop/pop2/pop3, discard, push, push_many, try_extend, set_max_stack_size, size/is_empty/is_full/max_stack_size); usize is Nat (checked_add overflow unreachable)"],
-        "assumptions": ["Vec<T> behaves as a list (push/pop/extend/truncate/reverse/get)",
-                        "element type is irrelevant to stack behaviour (replayed on i64 and String)"],
-        "explanation": "Lean theorems: refinement of the code-shaped vector model to a list specification for histories of any length (history), atomicity of every failing operation (atomic), capacity after any history (capacity), underflow payloads, insertion order. Tie: exhaustive short histories + seeded random histories replayed on the real Stack<i64>/Stack<String> and compared output by output and by final contents with the compiled Lean model.",
-    },
-}
+"""Per-property configuration of ./check, loaded from props/Cxx.py fragments (PROP, META)."""
+import importlib, os, re
+PROPS, META = {}, {}
+_d = os.path.join(os.path.dirname(os.path.abspath(__file__)), "props")
+for _f in sorted(os.listdir(_d)):
+    _m = re.fullmatch(r"(C\d+)\.py", _f)
+    if _m:
+        _mod = importlib.import_module("props." + _m.group(1))
+        PROPS[_m.group(1)] = _mod.PROP
+        META[_m.group(1)] = _mod.META
